@@ -76,7 +76,7 @@ def run(ctx):
                      lambda: ctx.build_vdrive("launch"), lambda: lc.build_probe(ctx))     # build while TLC generates
     ctx.tlc_ok("Launch_Gen", g)
     allc = ctx.read_ndjson(os.path.join(g.dir, "c07cases.ndjson"))
-    allc.sort(key=lambda c: (c["fail"], c["idx"], c["cb"], c["s"], c["r"]))
+    allc.sort(key=lambda c: (c["fail"], c["idx"], c["cb"], c["s"], c["r"], c["crash"], c["tbl"]))
     # the gate family (Launch_Gen!GateSites x GateSteps) is run in every tier
     cases = [c for c in allc if c["gate"]]
     ngate = len(cases)
@@ -107,6 +107,7 @@ def run(ctx):
     ctx.log("generated %d applicable (configuration, failure point, callback) cases, running %d (%d gate family, %d failure points)" % (
         len(allc), len(cases), ngate, len({(c["fail"], c["idx"]) for c in cases})))
     ctx.cov["gate_family_cases"] = ngate
+    ctx.cov["low_descriptor_table_cases"] = sum(1 for c in cases if c["tbl"])
     ctx.cov["launcher_death_cases"] = sum(1 for c in cases if c["crash"])
 
     # ---- 3. real runs
@@ -129,7 +130,7 @@ def run(ctx):
     ct = threading.Thread(target=do_cont)
     ct.start()
     obs, _ = lc.run_chunks(ctx, "c07", cases, "plain", par=4, timeout=ctx.pick(300, 1500))
-    st_pool = [c for c in cases if not c["crash"] and not c["opt"]["ptrace"] and not (c["opt"]["stop"] and c["opt"]["sync"]) and c["fail"] not in ("keepcaps", "dropA_secbits")]
+    st_pool = [c for c in cases if not c["crash"] and not c["tbl"] and not c["opt"]["ptrace"] and not (c["opt"]["stop"] and c["opt"]["sync"]) and c["fail"] not in ("keepcaps", "dropA_secbits")]
     rng.shuffle(st_pool)
     st_cases = []
     for i, c in enumerate(st_pool[:ctx.pick(32, 150)]):
@@ -176,7 +177,7 @@ def run(ctx):
         for b in ctx.read_ndjson(os.path.join(j.dir, fn)):
             o = src[b["i"] - 1]
             if kind == "forkexec":
-                where = "fail=%s[%d] cb=%s%s [%s]" % (o["fail"], o["idx"], o["cb"], (" launcher-death=" + o["crash"]) if o["crash"] else "",
+                where = "fail=%s[%d] cb=%s%s [%s]" % (o["fail"], o["idx"], o["cb"], ((" launcher-death=" + o["crash"]) if o["crash"] else "") + ((" files=" + o["tbl"] + "-table sock@" + o["sock"]) if o.get("tbl") else ""),
                                                      " ".join(lc.opt_on(o["opt"])))
                 key = "%s:%s:%s" % (b["what"], o["fail"], b["sig"])
                 case = slim(o)
